@@ -5,7 +5,7 @@ import vlib
 MANIFEST = {
     "text": "Coq theorems over an executable model of the AT async commit worker (bounded receive queue, run's buffer with "
             "ticker/threshold flush, blocking fan-out, worker jobs with per-group connection and per-pair DELETE, re-queueing): "
-            "C11_answer, C11_precise, C11_no_loss (multiset invariant accepted = deleted + pending + skipped-empty-resource, by "
+            "C11_answer (answered Committed <=> queued; a call whose context is done is refused, not queued), C11_precise, C11_no_loss (multiset invariant accepted = deleted + pending + skipped-empty-resource, by "
             "induction over ALL event lists, fault outcomes and settings), C11_eventual (constructive: work(s) fault-free "
             "scheduler steps drain every reachable state whose pending items fit the receive queue), and the refutation of the "
             "unconditional version (circular wait run<->worker under small buffers, finding worker.small-buffers). The model is "
@@ -14,8 +14,8 @@ MANIFEST = {
             "is replayed against the model's specification state and the final table / pending set are compared with the model's "
             "own run, inside Coq (vm_compute); a direct oracle on the real run reports lost rows, foreign deletions, wrong answers.",
     "note": "Trusted: Coq kernel + vm_compute, no axioms; harness workerrun (fake driver, trace recorder) and this driver's case "
-            "printer. Liveness on the implementation is sampled with a wall-clock bound (200 worker intervals + slack). Cancelled "
-            "request contexts and rows inserted concurrently are outside the model.",
+            "printer. Liveness on the implementation is sampled with a wall-clock bound (200 worker intervals + slack). Calls whose "
+            "context is done are modelled (event Refuse) and generated; rows inserted concurrently are outside the model.",
     "technique": "Coq proof (invariant by induction over event lists, ranking function for liveness) + differential "
                  "correspondence of the model with the real worker (vm_compute) + direct oracle",
 }
@@ -25,7 +25,8 @@ TRUSTED = vlib.TRUSTED_COMMON + [
     "fault injection, trace recorder, goroutine-dump classification of a circular wait",
     "lib/checks/c11.py: printer of observed runs as Coq terms; finding predicate worker.small-buffers",
 ]
-ERR = {1: "a BranchCommit call was not answered PhasetwoCommitted",
+ERR = {1: "a BranchCommit call was answered neither PhasetwoCommitted (without error) nor refused (failure status with an error)",
+       11: "a refusal of a request that was not submitted",
        2: "a DELETE for an (xid, branch) pair that no pending request has",
        3: "final undo_log table differs from the model's",
        4: "the set of requests still pending differs from the model's",
@@ -35,7 +36,7 @@ ERR = {1: "a BranchCommit call was not answered PhasetwoCommitted",
        8: "final table differs from the replayed trace (harness inconsistency)",
        9: "a statement the undo-log manager does not have",
        10: "the model's own answers are not all Committed"}
-PROPERTY_CODES = (1, 2, 6, 7, 9)
+PROPERTY_CODES = (1, 2, 6, 7, 9, 11)
 
 HEADER = """From Coq Require Import List NArith Bool Arith.
 From SeataV Require Import At.Worker At.WorkerCases.
@@ -78,12 +79,23 @@ def case_term(res, cmp_sim):
     reqs = sc["reqs"]
     trace = []
     order = []
+    ans = {a["i"]: a for a in res["answers"]}
+
+    def accepted(a):
+        return a["returned"] and a["st"] == 5 and not a["err"]
+
+    def refused(a):
+        return a["returned"] and a["st"] != 5 and bool(a["err"])
     for e in res["trace"]:
         k = e["k"]
         if k == "S":
             i = e.get("i", 0)
             order.append(i)
             trace.append("OSubmit " + item(reqs[i]))
+        elif k == "A":
+            i = e.get("i", 0)
+            if refused(ans[i]):
+                trace.append("ORefused " + item(reqs[i]))
         elif k == "R":
             trace.append("OAppear %d" % e["r"])
         elif k == "C":
@@ -99,7 +111,9 @@ def case_term(res, cmp_sim):
                                                        items(e.get("rm"))))
     npat = sum(len(p or []) for p in sc["conn_pat"]) + sum(len(p or []) for p in sc["del_pat"])
     fuel = 12 * (len(reqs) + 4) * (npat + 4)
-    script = ["SAcc " + item(reqs[i]) for i in order] + ["SAuto " + nat(fuel // 2)]
+    script = ["SAcc " + item(reqs[i]) for i in order if accepted(ans[i])]
+    script += ["SRef " + item(reqs[i]) for i in order if ans[i]["returned"] and not accepted(ans[i])]
+    script += ["SAuto " + nat(fuel // 2)]
     script += ["SApp %d" % r for r in range(1, sc["nres"] + 1) if sc["res_mode"][r] == 1]
     script += ["SAuto " + nat(fuel)]
     k0 = [str(r) for r in range(1, sc["nres"] + 1) if sc["res_mode"][r] == 0]
@@ -107,7 +121,7 @@ def case_term(res, cmp_sim):
     def pats(p):
         return vlib.coq_list(["(%d, %s)" % (r, vlib.coq_list([vlib.coq_bool(v != 0) for v in (p[r] or [])]))
                               for r in range(1, sc["nres"] + 1)])
-    status = [str(a["st"]) for a in res["answers"] if a["returned"]]
+    status = ["(%d, %s)" % (a["st"], vlib.coq_bool(bool(a["err"]))) for a in res["answers"] if a["returned"]]
     return ("(mkCase (mkCfg %s %s %s %s) %s %s %s %s %s %s %s %s %s)" % (
         nat(cfg["recv_size"]), nat(cfg["buffer_limit"]), nat(cfg["fan_buf"]), nat(cfg["workers"]),
         items(sc["rows"]), vlib.coq_list(k0), pats(sc["conn_pat"]), pats(sc["del_pat"]),
@@ -147,10 +161,11 @@ def analyse(chk, results, label=""):
             known_hits += 1
         what = []
         answers = res["answers"]
-        bad_answer = [a["i"] for a in answers if a["returned"] and (a["st"] != 5 or a["err"])]
+        bad_answer = [a["i"] for a in answers if a["returned"] and not (a["st"] == 5 and not a["err"])
+                      and not (a["st"] != 5 and a["err"])]
         unreturned = [a["i"] for a in answers if not a["returned"]]
         if bad_answer:
-            what.append("request(s) %s not answered PhasetwoCommitted" % bad_answer[:5])
+            what.append("request(s) %s answered neither PhasetwoCommitted nor refused (failure status with an error)" % bad_answer[:5])
         if unreturned and not excused:
             what.append("BranchCommit call(s) %s never returned" % unreturned[:5])
         if res["imprecise"]:
@@ -243,6 +258,8 @@ def run(chk, scen_file=None, repeat=1):
         "compared_with_model_final_state": st["cmp_sim"],
         "model_scheduler_steps_budget": st["model_steps"],
         "requests": sum(len(r["scen"]["reqs"]) for r in results),
+        "requests_with_cancellable_context": sum(1 for r in results for q in r["scen"]["reqs"] if q.get("ctx")),
+        "requests_refused": sum(1 for r in results for a in r["answers"] if a["returned"] and a["st"] != 5 and a["err"]),
         "observed_events": len(ev),
         "deletes_ok": sum(1 for e in ev if e["k"] == "D" and e.get("ok")),
         "deletes_failed": sum(1 for e in ev if e["k"] in ("D", "P") and not e.get("ok")),
@@ -254,8 +271,7 @@ def run(chk, scen_file=None, repeat=1):
     })
     chk.assumptions += [
         "liveness on the implementation is a wall-clock sample: rows must be gone within 200 worker intervals (+3 s slack)",
-        "BranchCommit is called with a context that is never cancelled (as the processor does); rows are not inserted "
-        "into undo_log while the worker runs",
+        "rows are not inserted into undo_log while the worker runs",
     ]
     return chk.finish()
 
